@@ -374,3 +374,85 @@ pub fn dir_listing(path: &Path) -> Vec<PathBuf> {
     v.sort();
     v
 }
+
+// ---------------------------------------------------------------------------------------------
+// A minimal re-implementation of `Database::run` over a storage handle we own, so that plans
+// (not only SQL) can be executed: used by the plan-level checks.
+
+use std::sync::Arc;
+
+use futures::TryStreamExt;
+use risinglight::catalog::RootCatalogRef;
+use risinglight::planner::{Config as PlanConfig, Optimizer, RecExpr, Statistics};
+use risinglight::storage::InMemoryStorage;
+
+pub struct MiniDb {
+    pub storage: Arc<InMemoryStorage>,
+    pub catalog: RootCatalogRef,
+}
+
+impl MiniDb {
+    pub fn new() -> MiniDb {
+        let storage = Arc::new(InMemoryStorage::new());
+        let catalog = storage.catalog().clone();
+        MiniDb { storage, catalog }
+    }
+    pub fn optimizer(&self, stat: Statistics) -> Optimizer {
+        Optimizer::new(self.catalog.clone(), stat, PlanConfig::default())
+    }
+    /// Parse + bind one statement. Err(true, msg) = rejected, Err(false, msg) = panicked.
+    pub fn bind(&self, sql: &str) -> Result<RecExpr, (bool, String)> {
+        let stmts = risinglight::parser::parse(sql).map_err(|e| (true, e.to_string()))?;
+        let Some(stmt) = stmts.into_iter().next() else {
+            return Err((true, "empty".into()));
+        };
+        let catalog = self.catalog.clone();
+        match std::panic::catch_unwind(AssertUnwindSafe(move || {
+            let mut binder = risinglight::binder::Binder::new(catalog);
+            binder.bind(stmt)
+        })) {
+            Ok(Ok(p)) => Ok(p),
+            Ok(Err(e)) => Err((true, e.to_string())),
+            Err(_) => Err((false, PANICS.lock().unwrap().last().cloned().unwrap_or_default())),
+        }
+    }
+    /// Execute a plan as it is.
+    pub async fn run_plan(&self, plan: &RecExpr) -> Out {
+        let opt = self.optimizer(Statistics::default());
+        let storage = self.storage.clone();
+        let fut = async move {
+            let exec = risinglight::executor::build(opt, storage, plan);
+            exec.try_collect::<Vec<_>>().await
+        };
+        match AssertUnwindSafe(fut).catch_unwind().await {
+            Ok(Ok(chunks)) => {
+                let mut rows = vec![];
+                for c in &chunks {
+                    for r in c.rows() {
+                        rows.push(r.values().map(|v| Val::from_dv(&v)).collect());
+                    }
+                }
+                Out::Rows(rows)
+            }
+            Ok(Err(e)) => Out::Failed(e.to_string()),
+            Err(_) => Out::Panicked(PANICS.lock().unwrap().last().cloned().unwrap_or_default()),
+        }
+    }
+    pub async fn run_sql(&self, sql: &str, optimize: bool) -> Out {
+        let plan = match self.bind(sql) {
+            Ok(p) => p,
+            Err((true, e)) => return Out::Rejected(e),
+            Err((false, e)) => return Out::Panicked(e),
+        };
+        let plan = if optimize {
+            let opt = self.optimizer(Statistics::default());
+            match std::panic::catch_unwind(AssertUnwindSafe(|| opt.optimize(plan))) {
+                Ok(p) => p,
+                Err(_) => return Out::Panicked(PANICS.lock().unwrap().last().cloned().unwrap_or_default()),
+            }
+        } else {
+            plan
+        };
+        self.run_plan(&plan).await
+    }
+}
